@@ -88,6 +88,7 @@ CATALOGUE = [
     ('reify_attributes', 4), ('indicate_branches', 3), ('canonicalize_roles', 2), ('queries', 4), ('or', 4), ('sub', 4),
     ('errors', 3), ('errors_union', 3), ('errors_islands', 2), ('role_algebra', 2), ('node_contexts', 3), ('appears_inverted', 3), ('alignments', 2),
     ('tree_nodes_walk', 2), ('graph_eq', 1), ('codec_api', 3), ('model_reify', 3), ('model_from_dict', 1),
+    ('raising_key', 3),
     # derive, then mutate the derived object in place
     ('or_then_ior', 3), ('sub_then_isub', 3), ('copy_then_top', 2), ('configure_then_rearrange', 3),
     ('configure_then_reset_variables', 3), ('or_then_sort', 2), ('indicate_then_ior', 2),
@@ -341,6 +342,34 @@ def run_op(w, op, local):
         return [[nd[0] for nd in t.nodes()], [[list(p), b[0]] for p, b in t.walk()], repr(t), str(t)]
     if name == 'graph_eq':
         return [g == w.graphs[y], g == g, str(g)[:0]]
+    if name == 'raising_key':
+        # a user-supplied sort key that fails in the middle of the call: the exception is the result, and the
+        # same operations with a proper key right afterwards must be unaffected by the aborted call
+        calls = [0]
+        lim = 1 + op['a'] % 6
+
+        def key(role):
+            calls[0] += 1
+            if calls[0] >= lim:
+                raise LookupError('user key failed at call %d' % calls[0])
+            return model.canonical_order(role)
+        out = []
+        try:
+            out.append(layout.reconfigure(g, model=model, key=key))
+        except LookupError as e:
+            out.append(digest.canon_exc(e))
+        calls[0] = 0
+        tt = layout.configure(g, model=model)
+        try:
+            layout.rearrange(tt, key=key, attributes_first=bool(op['a'] % 2))
+            out.append('no-exception')
+        except LookupError as e:
+            out.append(digest.canon_exc(e))
+        out.append(layout.reconfigure(g, model=model, key=model.canonical_order))
+        t2 = layout.configure(g, model=model)
+        layout.rearrange(t2, key=model.alphanumeric_order)
+        out.append(t2)
+        return out
     if name == 'codec_api':
         # the same calls through a shared PENMANCodec object
         tt = codec.parse(text)
